@@ -833,6 +833,7 @@ func (h cachedHistogram) ValueBucket(
 	)
 
 	return reportSamplesFunc(func(value int64) {
+		m := m // per-call copy: the handle may be used by several goroutines
 		m.Value.Count = value
 		verifYield(40)
 		rep.reportCopyMetric(m, size, bucket, bucketID)
@@ -865,6 +866,7 @@ func (h cachedHistogram) DurationBucket(
 	)
 
 	return reportSamplesFunc(func(value int64) {
+		m := m // per-call copy: the handle may be used by several goroutines
 		m.Value.Count = value
 		verifYield(40)
 		rep.reportCopyMetric(m, size, bucket, bucketID)
